@@ -153,7 +153,19 @@ func (defaultLocker *DefaultLocker) Lock(ctx context.Context, accounts Accounts)
 	select {
 	case <-ctx.Done():
 		verifhook.Yield(ctx, "lock.select.done", "intent", intent)
-		defaultLocker.intents.RemoveValue(intent)
+		// The intent may have been granted between the cancellation and this point (or both channels
+		// were ready and select chose this one): recheck has then taken the accounts and removed the
+		// intent from the queue. Decide under the mutex, so that a grant cannot slip in between, and
+		// give the accounts back instead of leaking them.
+		defaultLocker.mu.Lock()
+		select {
+		case <-intent.acquired:
+			intent.unlock(ctx, defaultLocker)
+			recheck()
+		default:
+			defaultLocker.intents.RemoveValue(intent)
+		}
+		defaultLocker.mu.Unlock()
 		return nil, errors.Wrapf(ctx.Err(), "locking accounts: %s as read, and %s as write", accounts.Read, accounts.Write)
 	case <-intent.acquired:
 		verifhook.Yield(ctx, "lock.select.acquired", "intent", intent)
